@@ -565,6 +565,16 @@ impl<T> BTreeSet<T> {
         self.m.last_key_value().map(|(k, _)| k)
     }
 }
+impl<T> BTreeSet<T> {
+    /// `HashSet::drain`: empties the set, yielding its elements.
+    pub fn drain(&mut self) -> IntoKeys<T, ()> {
+        core::mem::take(&mut self.m).into_keys()
+    }
+    pub fn verif_push_back(&mut self, t: T) {
+        self.m.verif_push_back(t, ());
+    }
+}
+
 impl<T: Ord> BTreeSet<T> {
     pub fn insert(&mut self, t: T) -> bool {
         if self.m.contains_key(&t) {
